@@ -41,10 +41,17 @@ class FaultyRaw(io.FileIO):
         self._rel = rel
         self._writing = any(c in mode for c in "wax+")
         self._wrote = False
+        # a file's modification time is the time of its last write (or of its creation / truncation), not of its close
+        self._mtime_ns = self._now_ns() if self._writing else None
+
+    def _now_ns(self):
+        c = self._fs.clock
+        return None if c is None else c.time_ns() + getattr(c, "fs_skew_us", 0) * 1000
 
     def write(self, b):
         fs = self._fs
         n = len(b)
+        self._mtime_ns = self._now_ns()
         if fs.dead():
             return n  # killed process: nothing more reaches the disk
         cut = fs.before("write", self._rel, n)
@@ -105,8 +112,8 @@ class FaultyRaw(io.FileIO):
                 raise SimCrash()
         path = self.name
         super().close()
-        if self._writing and fs.clock is not None and not fs.dead():
-            t = fs.clock.time_ns() + getattr(fs.clock, "fs_skew_us", 0) * 1000  # the file system's clock
+        if self._writing and fs.clock is not None and not fs.dead() and self._mtime_ns is not None:
+            t = self._mtime_ns  # time of the last write, on the file system's clock
             try:
                 REAL_UTIME(path, ns=(t, t))
             except OSError:
